@@ -449,6 +449,45 @@ async def sc_busy(ctx, rng):
         await lst.aclose()
 
 
+async def sc_close_pending(ctx, rng):
+    """a receive() that is blocked when another task closes the stream locally ends with ClosedResourceError
+    (the transport's connection_lost / the readiness future wakes it): it does not hang"""
+    import anyio
+    name = "close_pending"
+    a, b, lst = await make_pair(ctx)
+    res = {}
+    with anyio.move_on_after(30) as scope:
+        async with anyio.create_task_group() as tg:
+            async def rcv():
+                try:
+                    await a.receive()
+                    res["r"] = "data"
+                except anyio.ClosedResourceError:
+                    res["r"] = "closed"
+                except Exception as e:  # noqa: BLE001
+                    res["r"] = type(e).__name__
+            tg.start_soon(rcv)
+            await anyio.wait_all_tasks_blocked()
+            await a.aclose()
+    if scope.cancelled_caught:
+        ctx.viol(name, "receive() pending at a local aclose() hangs", {})
+    elif res.get("r") != "closed":
+        ctx.viol(name, f"receive() pending at a local aclose() ended with {res.get('r')} instead of ClosedResourceError", {})
+    # the peer sees a clean end
+    with anyio.move_on_after(10) as sc2:
+        try:
+            await b.receive()
+            ctx.viol(name, "peer of a closed stream received data that was never sent", {})
+        except anyio.EndOfStream:
+            pass
+    if sc2.cancelled_caught:
+        ctx.viol(name, "peer of a closed stream does not get EndOfStream", {})
+    ctx.fact("close_pending", res.get("r"))
+    await b.aclose()
+    if lst is not None:
+        await lst.aclose()
+
+
 async def main(ctx: Ctx, only=None):
     rng = random.Random(ctx.seed * 1000 + hash((ctx.family, ctx.loopname)) % 997)
     reps = 1 if ctx.tier == "quick" else 4
@@ -456,7 +495,7 @@ async def main(ctx: Ctx, only=None):
     for _ in range(reps):
         plan += [("sizes", sc_sizes, ("a->b",)), ("sizes", sc_sizes, ("b->a",))]
         plan += [("duplex", sc_duplex, ()), ("close", sc_close, ("a closes",)), ("close", sc_close, ("b closes",)),
-                 ("busy", sc_busy, ())]
+                 ("busy", sc_busy, ()), ("close_pending", sc_close_pending, ())]
     for d in ("a->b", "b->a"):
         for mode in ("idle", "late_first_receive", "cancelled_receive"):
             if ctx.tier == "quick" and (d, mode) in (("a->b", "idle"), ("b->a", "late_first_receive")):
